@@ -245,6 +245,22 @@ def gen_treasury(seed, n):
         if allowed and allowed[0]:
             lines.append("texec %d %s swapin %s %s:%d %d" % (t + 10, hx(c.users[2]), route_s(allowed[0]), hx(allowed[0][0][1]), 7, 1))
             lines.append("texec %d %s swapin %s %s:%d %d" % (t + 10, hx(trader), route_s(allowed[0]), hx(allowed[0][0][1]), 7, 1))
+        # trader rotation with the allow-list re-stated unchanged, then a swap by the replaced and by the new trader
+        cur = allowed[1:]
+        for adm in [admin, who]:
+            lines.append("texec %d %s updcfg %s %s" % (t + 11, hx(adm), hx(c.users[1]), routes_s(cur)))
+            lines.append("tquery")
+        for r in ([cur[0]] if cur and cur[0] else []) + ([allowed[0]] if allowed and allowed[0] else []):
+            for snd in [c.users[2], c.users[1], trader]:
+                lines.append("texec %d %s swapin %s %s:%d %d" % (t + 12, hx(snd), route_s(r), hx(r[0][1]), 7, 1))
+        # routes only (trader untouched), trader only (routes untouched)
+        lines.append("texec %d %s updcfg - %s" % (t + 13, hx(admin), routes_s(allowed)))
+        lines.append("tquery")
+        lines.append("texec %d %s updcfg %s -" % (t + 14, hx(admin), hx(trader)))
+        lines.append("tquery")
+        if allowed and allowed[0]:
+            for snd in [c.users[1], trader]:
+                lines.append("texec %d %s swapout %s %s:%d %d" % (t + 15, hx(snd), route_s(allowed[0]), hx(allowed[0][-1][2]), 7, 100))
         # versions with build metadata: the same release with metadata and a newer one (both must be refused; semver orders
         # build metadata, so neither is "strictly older")
         for name, ver in [("treasury", "0.4.19"), ("treasury", "0.4.20"), ("treasury", "0.4.21"), ("staking", "0.1.0"), ("treasury", "0.4"), ("treasury", "abc"), ("treasury", "0.3.99"),
@@ -256,7 +272,9 @@ def gen_treasury(seed, n):
 # ---------------- C14: validation ----------------
 def corrupt_addr(rnd, a, hrp):
     """field-level corruption operators on a bech32 address"""
-    k = rnd.randrange(12)
+    k = rnd.randrange(13)
+    if k == 12:
+        return straddle(rnd, a)
     if k == 0:
         return a.upper()
     if k == 1:
@@ -283,20 +301,48 @@ def corrupt_addr(rnd, a, hrp):
     return a
 
 
+def straddle(rnd, s):
+    """the same byte length, with a multi-byte character across a small byte offset (or the last one): string code that
+    slices by byte index must not split it"""
+    b = s.encode()
+    ch = rnd.choice(["é", "é", "€", "😀"]).encode()
+    if len(b) < len(ch):
+        return ch.decode()
+    k = rnd.choice(list(range(0, min(len(b) - len(ch), 7) + 1)) + [len(b) - len(ch)])
+    out = b[:k] + ch + b[k + len(ch):]
+    try:
+        return out.decode()
+    except UnicodeDecodeError:
+        return s
+
+
 def corrupt_prefix(rnd, p):
+    if rnd.random() < 0.12:
+        return straddle(rnd, p)
     return rnd.choice([p.upper(), p.capitalize(), "", p + " ", "x" * 84, "x" * 83, p + "\x7f", p + "1", "a1b", "~", p[:-1], p + "é"])
 
 
 def corrupt_channel(rnd):
+    if rnd.random() < 0.12:
+        return straddle(rnd, "channel-%d" % rnd.randrange(1000))
+    if rnd.random() < 0.1:
+        return rnd.choice(["channel-channel-5", "channel-5channel-5", "channel-5-5", "channel-5/channel-6", "channel-5\n", "\tchannel-5", "channel-5\x00"])
     return rnd.choice(["channel-+5", "channel-", "channel--1", "channel-007", "channel-18446744073709551615", "channel-18446744073709551616",
                        "channel-1 ", " channel-1", "Channel-1", "channel-1a", "channel-０", "channel", "chan-1", "channel-0x1", "channel-+", "channel-1e3"])
 
 
 def corrupt_ibc(rnd):
+    if rnd.random() < 0.3:
+        return straddle(rnd, D)                        # 68 bytes, not ASCII
+    if rnd.random() < 0.2:
+        # the prefix repeated, or a body that itself looks like prefixed denoms
+        return rnd.choice(["ibc/ibc/" + D[4:], "ibc/ibc/ibc/" + D[4:], "ibc/" * 17, "ibc/" * 16, "ibc/ibc/" + "A" * 60, "ibc//" + "A" * 63, "/ibc/" + D[4:]])
     return rnd.choice(["ibc/" + "A" * 63, "ibc/" + "A" * 65, "IBC/" + "A" * 64, "ibc" + "A" * 65, "ibc/", "utia", "ibc/" + "é" * 32, "ibc/" + "a" * 64])
 
 
 def corrupt_denom(rnd):
+    if rnd.random() < 0.12:
+        return straddle(rnd, rnd.choice(["stTIA", "abcd", "milkTIA"]))
     return rnd.choice(["abc", "ab", "", "abcd1", "ab-cd", "stTIA ", "ABCD", "abcdé", "a" * 200, "utia"])
 
 
@@ -350,6 +396,18 @@ def gen_config(seed, n):
                 t, hx(c.admin), hx(g["np"]), hx(g["vp"]), hx(g["nd"]), ",".join(hx(v) for v in g["vals"]), g["ub"], hx(g["staker"]), hx(g["coll"]),
                 hx(g["pp"]), hx(g["pd"]), hx(g["ch"]), g["mn"], hx(g["orc"]) if g["orc"] is not None else "-", g["fee"],
                 hx(g["tr"]) if g["tr"] is not None else "-", hx(g["sub"]), g["bp"], ",".join(hx(m) for m in g["mons"]))
+        def straddled(f):
+            # one validated string with a multi-byte character across a small byte offset, same byte length
+            g = dict(f); g["vals"] = list(f["vals"]); g["mons"] = list(f["mons"])
+            key = rnd.choice(["np", "vp", "nd", "pp", "pd", "pd", "pd", "ch", "sub", "staker", "coll", "orc", "tr", "vals", "mons"])
+            if key in ("vals", "mons"):
+                if g[key]:
+                    g[key][0] = straddle(rnd, g[key][0])
+            elif g[key] is not None:
+                g[key] = straddle(rnd, g[key])
+            return g
+        for _ in range(3):
+            lines.append(inst_s(straddled(f), t)); lines.append("query config")
         if h % 3 == 0:
             lines.append(inst_s(mutate(f), t)); lines.append("query config")
             # then a valid one so that updates have something to work on
@@ -357,6 +415,8 @@ def gen_config(seed, n):
         # --- UpdateConfig on every subset of sections, each section valid or corrupted ---
         for mask in range(32):
             g = mutate(f) if rnd.random() < 0.6 else dict(f)
+            if rnd.random() < 0.15:
+                g = straddled(f)
             if rnd.random() < 0.3:
                 g2 = dict(g); g2["pp"] = "celestia"; g = g2        # prefix change together with other sections
             nat = native_s(g) if mask & 1 else "-"
@@ -431,11 +491,16 @@ def gen_migrate(seed, n):
                 hx(D), hx("factory/%s/stTIA" % c.me), hx(c.treasury or b32.addr("osmo", "t", 32)), ops_, mons, vals, c.bp, c.unbonding, c.fee,
                 hx(c.staker), hx(c.collector), c.min, hx(c.channel), stopped, rnd.choice(["-", orc]), rnd.choice(["-", orc]), orc, pk, wt))
         elif layout == "0420":
-            tre = rnd.choice([c.treasury or b32.addr("osmo", "t", 32), b32.addr("cosmos", "t", 32), "bad"])
-            stk = rnd.choice([c.staker, c.staker, b32.addr("osmo", "s")])
+            # the stored 0.4.20 configuration: valid, or with exactly one address the migration has to refuse
+            tre = c.treasury or b32.addr("osmo", "t", 32); stk = c.staker; col = c.collector
+            bad = rnd.randrange(8)
+            if bad == 0: tre = rnd.choice([b32.addr("cosmos", "t", 32), "bad"])
+            elif bad == 1: stk = rnd.choice([b32.addr("osmo", "s"), b32.addr("celestiavaloper", "s"), c.staker.upper()])
+            elif bad == 2: col = rnd.choice([b32.addr("osmo", "c"), b32.addr("celestiavaloper", "c"), c.collector[:-1]])
+            elif bad == 3: vals = "[" + ",".join(hx(v) for v in [c.validators[0], b32.addr("celestia", "notaval")]) + "]"
             lines.append("leg0420 %s %s %s %s %s %d %d %d %s %s %d %s %s %s %s %s %s" % (
                 hx(D), hx("factory/%s/stTIA" % c.me), hx(tre), mons, vals, c.bp, c.unbonding, c.fee,
-                hx(stk), hx(c.collector), c.min, hx(c.channel), stopped, orc, rnd.choice(["0", "1"]), pk, wt))
+                hx(stk), hx(col), c.min, hx(c.channel), stopped, orc, rnd.choice(["0", "1"]), pk, wt))
         else:
             o = hx(c.oracle) if c.oracle else "-"; tr = hx(c.treasury) if c.treasury else "-"
             lines.append("leg100 %s (%s;%s;%s;%d;%s) (%d;%s) %s [%s] %d %s %s %s" % (
@@ -445,10 +510,18 @@ def gen_migrate(seed, n):
         vers = [right, right, right, "0.4.18", "0.4.20", "1.0.0", "1.1.0", "1.1.1", "2.0.0", "0.4.19", "1.0", "abc", "", "1.0.0-rc1", "01.0.0", "1.0.0 "]
         names = ["staking", "staking", "staking", "staking", "treasury", "Staking", ""]
         paths = {"0418": "v0418 %s" % rnd.choice(["0", "1"]),
-                 "0420": "v0420 %s %s %s %s" % (hx(rnd.choice(["celestia", "celestia", "CELESTIA", "cel estia", "osmo"])), hx(rnd.choice(["celestiavaloper", "celestiavaloper", ""])),
-                                                hx(rnd.choice(["utia", "utia", "ut", "uti4"])), hx(rnd.choice(["osmo", "osmo", "OSMO", "cosmos"]))),
+                 "0420": None,
                  "100": "v100"}
+        def v0420_args(valid):
+            a = ["celestia", "celestiavaloper", "utia", "osmo"]
+            if not valid:
+                i = rnd.randrange(4)
+                a[i] = rnd.choice([["CELESTIA", "cel estia", "osmo", ""], ["", "celestia", "CELESTIAVALOPER"], ["ut", "uti4", "", "UTIA"], ["OSMO", "cosmos", "", "celestia"]][i])
+            return "v0420 %s %s %s %s" % tuple(hx(x) for x in a)
+        paths["0420"] = v0420_args(True)
         for k in range(6):
+            if k:
+                paths["0420"] = v0420_args(rnd.random() < 0.4)
             ver = rnd.choice(vers) if k else right
             name = rnd.choice(names) if k else "staking"
             path = paths[layout] if (k == 0 or rnd.random() < 0.6) else paths[rnd.choice(["0418", "0420", "100"])]
@@ -458,6 +531,7 @@ def gen_migrate(seed, n):
             lines.append("mig " + path)
             lines.append("tx_abort_m")
         # finally the right one, kept, followed by a second attempt (now at the new version: refused)
+        paths["0420"] = v0420_args(True)
         lines.append("setver %s %s" % (hx("staking"), hx(right)))
         lines.append("mig " + paths[layout])
         lines.append("mig " + paths[layout])
